@@ -17,6 +17,10 @@ class BucketCrash(BaseException):
     """Raised by the fake bucket after the k-th mutation to model a process crash."""
 
 
+class LostResponse(Exception):
+    """The write was applied by the bucket but the client sees an error (timeout / connection reset)."""
+
+
 class Clock(object):
     now = None
 
@@ -44,6 +48,7 @@ class FakeS3(object):
         self.buckets = {}
         self.log = []          # (op, bucket, key, actor)
         self.crash_after = None  # int: raise BucketCrash right after that many further mutations
+        self.crash_kind = 'crash'  # 'crash' -> BucketCrash (BaseException); 'lost' -> LostResponse (Exception)
         self.actor = None      # harness label for who is calling (set by the harness around calls)
         self.reads = 0
 
@@ -56,6 +61,8 @@ class FakeS3(object):
             self.crash_after -= 1
             if self.crash_after <= 0:
                 self.crash_after = None
+                if self.crash_kind == 'lost':
+                    raise LostResponse('%s %s' % (op, key))
                 raise BucketCrash('%s %s' % (op, key))
 
     def contents(self, bucket):
